@@ -6,25 +6,25 @@ HERE = os.path.dirname(os.path.abspath(__file__))
 
 CHECKS = {
  "C01": dict(level="exploration", engine="E-HIST", technique="runtime monitoring: differential byte oracle (restore vs checkpointed source copy) at every acknowledgement of generated histories",
-   text="Every acknowledged sync in seeded random histories over the full C01 alphabet and configuration lattice is followed by a real Restore from the replica alone; the output is compared byte-for-byte with SQLite's own checkpointed copy of the source. Held on the histories explored, not proven.",
+   text="Every acknowledged sync in seeded random histories over the full C01 alphabet and configuration lattice is followed by a real Restore from the replica alone; the output is compared byte-for-byte with SQLite's own checkpointed copy of the source. Added histories: local disk-full episodes (the litestream meta directory on its own tmpfs, filled for the duration of 1-2 litestream operations) and application connections running with secure_delete (databases that contain and end in all-zero pages). Held on the histories explored, not proven.",
    note="file replica only; modernc SQLite as reference for committed state; mask limited to change counter, version bytes and the _litestream_seq root page", ref="§4 C01"),
  "C02": dict(level="exploration", engine="E-HIST", technique="runtime monitoring: ledger/dump-hash oracle over Restore(TXID=n) for every TXID after generated sequential interleavings and live concurrent-writer runs",
-   text="After each generated history (syncs/checkpoints/snapshots/compactions while an application transaction with spilled uncommitted frames is open; live writer goroutine against monitor-driven litestream; checkpoint-then-snapshot stress) every TXID listed at any level is restored and must be exactly one committed application state, monotone in n, level 0 gapless from 1. Held on the executions produced.",
+   text="After each generated history (syncs/checkpoints/snapshots/compactions while an application transaction with spilled uncommitted frames is open; live writer goroutine against monitor-driven litestream; checkpoint-then-snapshot stress) every TXID listed at any level is restored and must be exactly one committed application state, monotone in n, level 0 gapless from 1. Workload F adds local disk-full episodes around litestream operations (directed: everything copied, disk full, litestream checkpoint of each mode, space again, commits, Snapshot before the next sync). Held on the executions produced.",
    note="sha256 of the logical dump identifies a committed state; concurrent runs are real goroutine schedules (not enumerated); C12 applies the same oracle under the race detector", ref="§4 C02"),
  "C04": dict(level="exploration", engine="E-HIST", technique="runtime monitoring: differential byte oracle at the first acknowledgement after generated disturbances (stop/start, restart, offline activity, db replacement, meta loss/reset)",
    text="Histories = prefix + disturbance(s) from the cross product named by the property + suffix; the first acknowledged sync after each disturbance must restore byte-for-byte to the source, a successful sync must leave the replica at the database position, and level-0 files at or below the previous replica maximum must never be replaced. Held on the histories explored.",
    note="the application is the only writer while litestream is down; file replica only", ref="§4 C04"),
  "C06": dict(level="exploration", engine="E-HIST", technique="runtime monitoring: independent re-composition of archived level-0 files compared with every compacted/snapshot file and with Restore(TXID=n)",
-   text="Every file at level>=1 produced in generated histories (1..8 level layouts, DB.Compact and Store.CompactDB, shrinking databases, in-chain full snapshots) is decoded and compared page-for-page, Commit and timestamp with the overlay of the archived level-0 files of its range; levels must be contiguous; Restore(TXID=n) must equal image_n before and after each compaction.",
+   text="Every file at level>=1 produced in generated histories (1..8 level layouts, DB.Compact and Store.CompactDB, shrinking databases, in-chain full snapshots) is decoded and compared page-for-page, Commit and timestamp with the overlay of the archived level-0 files of its range; levels must be contiguous; Restore(TXID=n) must equal image_n before and after each compaction. Histories include process restarts (plain and of the whole Store) between compactions, and pinned histories in which the application checkpoints while litestream is closed or while its first sync after reopening fails, followed by a Snapshot.",
    note="ltx.Decoder (framing/LZ4/checksums) trusted; overlay logic independent of ltx.Compactor", ref="§4 C06"),
  "C10": dict(level="fault_enumeration", engine="E-FAULT", technique="runtime monitoring under fault injection: single corruptions at enumerated offsets of every plan file and read-fault schedules, restore result compared with reference bytes",
-   text="For replicas produced by histories: delete/truncate/flip at enumerated offsets of every plan file, read-fault schedules within and beyond the retry budget, checksum-valid payload corruption (integrity check), pre-existing output paths. Restore must return an error with no output, or the exact reference bytes; a dying process is a violation.",
+   text="For replicas produced by histories: delete/truncate/flip at enumerated offsets of every plan file, read-fault schedules within and beyond the retry budget, checksum-valid payload corruption (integrity check), pre-existing output paths. Restore must return an error with no output, or the exact reference bytes; a dying process is a violation. Half of the mid-stream faults hand out their last bytes together with the error (n>0 with a non-nil error).",
    note="pinned target TXID; quick tier samples offsets of large files (structure boundaries +-8 plus PRNG sample), thorough enumerates every offset of small files", ref="§4 C10"),
  "C13": dict(level="exploration", engine="E-HIST", technique="runtime monitoring: WAL frame-count bound (reference WAL decoder) after every successful sync and LTX-file count across idle syncs",
-   text="Generated write/sync histories over the threshold lattice; after every successful sync with nothing pinned SQLite's mxFrame must be <= the lowest configured threshold; 10 idle syncs may create at most 6 files and none in syncs 7..10.",
+   text="Generated write/sync histories over the threshold lattice; after every successful sync with nothing pinned SQLite's mxFrame must be <= the lowest configured threshold; 10 idle syncs may create at most 6 files and none in syncs 7..10. Fault histories add syncs that fail because the local staging area is full and snapshot uploads that break partway; after the fault the next successful sync has to restore the bound (a blocked checkpoint shows up as a deadlocked process).",
    note="frames counted up to the last valid commit frame of the current WAL generation", ref="§4 C13"),
  "C19": dict(level="exploration", engine="E-GEN", technique="runtime monitoring: generated v0.3.x layouts restored by the real code and compared with a reference recomputed by real SQLite from the generator's records",
-   text="Legacy layouts generated from real SQLite histories (several generations, snapshots at several indices, WAL files split at arbitrary offsets, any one segment or index removed, all planted times, mixed with current-format replicas); the restored bytes must equal the state computed independently from the generator's records, gaps must produce errors, format arbitration must pick the more recent eligible backup.",
+   text="Legacy layouts generated from real SQLite histories (several generations, snapshots at several indices, WAL files split at arbitrary offsets, any one segment or index removed, all planted times, mixed with current-format replicas); the restored bytes must equal the state computed independently from the generator's records, gaps must produce errors, format arbitration must pick the more recent eligible backup (layouts: legacy entirely older, current format entirely older, current-format files between the newest legacy snapshot and later legacy WAL segments).",
    note="removal of the last segment of a non-final index is undetectable from a 0.3.x listing and is only counted; planted mtimes", ref="§4 C19"),
  "C07": dict(level="exploration", engine="E-HIST", technique="runtime monitoring: invariants + differential restore after every retention pass of generated histories with planted file ages",
    text="Generated histories over {write, sync, compact, snapshot, all retention entry points (DB, Store, stand-alone Compactor), RetentionEnabled on/off} with file ages planted around the thresholds in arbitrary orders; after every pass the latest restore must equal the level-0 image, a snapshot must survive once one exists, surviving L0 files must be one contiguous run ending at the newest, and replication must continue.",
@@ -33,38 +33,38 @@ CHECKS = {
    text="Real (db, WAL) pairs of all page sizes are mutated by every class named in the property; WALReader.PageMap and the byte-budgeted chunked reads from every commit-boundary start offset, chained exactly like DB.sync, must reproduce the image SQLite itself recovers; chunk ends must be commit frames; union of chunks must equal the unchunked map.",
    note="modernc SQLite recovery is the oracle (cross-checked against C SQLite 3.40.1 on a sample); forged commit sizes that break invariants of every SQLite-written WAL are executed and counted but not judged", ref="§4 C09"),
  "C15": dict(level="exploration", engine="E-HIST", technique="runtime monitoring: timestamp restores at/around every recorded replication time compared with the level-0 image oracle",
-   text="Generated histories with and without compaction/retention; Restore(Timestamp=T) for T at, just before/after and between the recorded header timestamps of every TXID must equal image_n for an n replicated before T, never newer, exactly the last one when all L0 files exist, monotone in T, and fail before the first backup.",
+   text="Generated histories with and without compaction/retention; Restore(Timestamp=T) for T at, just before/after and between the recorded header timestamps of every TXID must equal image_n for an n replicated before T, never newer, exactly the last one when all L0 files exist, monotone in T, and fail before the first backup. Live variant: timestamp restores and Snapshot calls overlap monitor-driven replication behind delaying proxies; every result is judged afterwards against recorded header times and the recorded publication order.",
    note="replication time = LTX header timestamp read back from archived files; mtimes are never touched", ref="§4 C15"),
  "C08": dict(level="exploration", engine="E-GEN", technique="runtime monitoring: the real planner is run on enumerated/generated file sets and every answer is judged by an independent reachability oracle",
    text="CalcRestorePlan is driven with an in-memory listing client over all file sets of <=5 files over TXIDs 1..3 at levels {0,1,2,9} with all creation-time assignments and all requests (exhaustive), plus seeded random sets up to 8 TXIDs / 14 files; each plan must be a valid chain of eligible files ending at the target, must exist whenever the oracle finds a chain, and 'latest' must report gaps.",
    note="exhaustive only for the stated small space; the gap clause is not demanded for timestamp requests (statement is silent)", ref="§4 C08"),
  "C20": dict(level="exploration", engine="E-LEASE", technique="runtime monitoring: request-level schedule enumeration over real s3.Leaser instances with an online belief-set invariant, plus porcupine linearizability checking of free-running histories under the race detector",
-   text="Real Leaser instances over one in-memory conditional-write store; every request blocks until the scheduler grants it. All interleavings of 2 instances x programs of <=3 operations x TTL classes are visited (exhaustive), plus random 3-client schedules and free-running histories checked with porcupine; after every request at most one live-believed holder may exist, taken-over instances must get ErrLeaseNotHeld, generations must increase.",
+   text="Real Leaser instances over one in-memory conditional-write store; every request blocks until the scheduler grants it. All interleavings of 2 instances x programs of <=3 operations x TTL classes are visited (exhaustive), plus random 3-client schedules and free-running histories checked with porcupine; after every request at most one live-believed holder may exist, taken-over instances must get ErrLeaseNotHeld, generations must increase. Near-expiry pairs (holder TTL 0.8-2.5 s, immediate competing acquire) are judged on the recorded ExpiresAt against a clock reading taken after the competing acquire returned.",
    note="S3 conditional-write semantics are modelled by the in-memory store (If-Match / If-None-Match, 412/404); lease liveness is a class (+1h/-1h), never a clock reading", ref="§4 C20"),
  "C12": dict(level="exploration", engine="E-CONC", technique="runtime monitoring: Go race detector + progress-confirmed watchdog + lock/fd probes + porcupine registry model + C01/C02/snapshot oracles over concurrent stress runs of one Store with live writers",
-   text="N goroutines draw from the daemon's whole operation set (incl. the control socket) against one Store with live application writers, monitors at millisecond intervals and delays injected inside storage calls; zero race reports with a litestream frame, no stuck operation, no leaked read lock or descriptor after Close/Unregister, exactly one instance per path (porcupine), and afterwards the final acknowledgement restores to the source, every TXID is a consistent committed state and every level-9 file equals the level-0 image of its TXID.",
+   text="N goroutines draw from the daemon's whole operation set (incl. the control socket) against one Store with live application writers, monitors at millisecond intervals and delays injected inside storage calls; zero race reports with a litestream frame, no stuck operation, no leaked read lock or descriptor after Close/Unregister, exactly one instance per path (porcupine), and afterwards the final acknowledgement restores to the source, every TXID is a consistent committed state and every level-9 file equals the level-0 image of its TXID. Acknowledgements observed while the writers run (SyncAndWait, Store.SyncDB(wait), POST /sync wait) are checked afterwards: every commit that had returned before the call must be in the replica as published when the call returned. The writers also checkpoint from the application side; the source itself must end with every returned commit and pass integrity_check. A registration storm (16 concurrent registrations of one path under registry-lock contention, repeated) follows each run.",
    note="real goroutine schedules, not enumerated; runs are sized by completed calls with a wall-clock cap; restores per run are capped and the cap is stated in the evidence", ref="§4 C12"),
  "C16": dict(level="fault_enumeration", engine="E-CRASH", technique="runtime monitoring under process kills: ptrace supervisor kills the follower before each fs-mutating syscall; byte comparison with an ordinary restore at quiescence; sidecar monotonicity",
-   text="A follower process (Restore with Follow) is driven poll by poll against staged primary histories with compaction, snapshots and retention; it is killed before every file-system-mutating syscall of its apply/sidecar cycles (and in the window between publishing the database and its first sidecar), restarted, and must converge byte-for-byte (masked header bytes) to Restore(TXID=replica max) without its sidecar ever regressing; graceful stop/restart histories run alongside.",
+   text="A follower process (Restore with Follow) is driven poll by poll against staged primary histories with compaction, snapshots and retention; it is killed before every file-system-mutating syscall of its apply/sidecar cycles (and in the window between publishing the database and its first sidecar), restarted, and must converge byte-for-byte (masked header bytes) to Restore(TXID=replica max) without its sidecar ever regressing; graceful stop/restart histories run alongside, including one with a database larger than 4 GiB (64 KiB pages) whose followed transactions touch pages above the 4 GiB mark.",
    note="SIGKILL of the process (page cache survives); poll cycles are counted logically through a counting ReplicaClient proxy in the victim; wall-clock limits only produce inconclusive", ref="§4 C16"),
  "C03": dict(level="fault_enumeration", engine="E-CRASH", technique="runtime monitoring under process kills: ptrace supervisor kills the litestream process immediately before the Nth file-system-mutating syscall; post-kill file verification, restore of the last acknowledged TXID, restart and differential ack",
    text="Scripted victim scenarios (sync/upload with checkpoints, compaction + snapshot, retention, restore, baseline fetch after meta loss, data-dir rollback, follow mode; the real litestream binary in the thorough tier) are killed before every (quick: every point of two scenarios plus boundaries and a PRNG sample of the others) fs-mutating syscall; afterwards every *.ltx under a final name must verify, restore outputs and sidecars must be complete, the last acknowledged TXID must restore to the image recorded at its acknowledgement, and a restarted victim must acknowledge a new sync that restores to the source.",
    note="SIGKILL of the process (page cache survives; the power-loss half is C11's); the application lives in the driver and is never killed", ref="§4 C03"),
  "C05": dict(level="fault_enumeration", engine="E-FAULT", technique="runtime monitoring under fault injection: seeded per-call fault schedules on a recording ReplicaClient proxy; gaplessness, ack=>stored, consistent restorability after every step, catch-up after faults stop",
-   text="Generated histories (writes, syncs, uploads, compactions, snapshots, Close with shutdown retry, meta-loss restarts) run over a proxy that injects {fail-before-effect, fail-after-effect, short-read, mid-stream error, premature EOF} per call; after every client call level 0 must be gapless, every acknowledgement must be stored and restore to the source, the replica must stay restorable to a consistent ledger state, and after faults stop replication must catch up.",
+   text="Generated histories (writes, syncs, uploads, compactions, snapshots, Close with shutdown retry, meta-loss restarts) run over a proxy that injects {fail-before-effect, fail-after-effect, short-read, mid-stream error, premature EOF} per call; after every client call level 0 must be gapless, every acknowledgement must be stored and restore to the source, the replica must stay restorable to a consistent ledger state, and after faults stop replication must catch up. Histories include run-time ResetLocalState under faults; half of the injected download faults deliver their last bytes together with the error.",
    note="fault schedules are seeded classes (5/30/80 %, bursts, per-op targeting), not all assignments; fault-free view for restores", ref="§4 C05"),
  "C11": dict(level="exploration", engine="E-TRACE", technique="runtime monitoring: strace log of the litestream process checked offline against write->fsync->rename->fsync(dir)->report ordering rules and a durable-set model for unlinks",
-   text="The C03 victim scenarios (plus variants where nothing else is published in the same call) are traced with strace; for every rename to a published name the source must have been fsynced after its last modification (R1) and the directory fsynced before success is reported (R2); for every unlink the set of durably stored files minus the victim must still contain a valid restore chain to the highest acknowledged TXID (R3).",
+   text="The C03 victim scenarios (plus variants where nothing else is published in the same call) are traced with strace; for every rename to a published name the source must have been fsynced after its last modification (R1) and the directory fsynced before success is reported (R2); for every unlink the set of durably stored files minus the victim must still contain a valid restore chain to the highest acknowledged TXID (R3). T5 traces the v0.3.x restore path (snapshot-only and snapshot+WAL); T6 makes every fsync of the restoring process fail with EIO (strace fault injection): a failed fsync is not a flush.",
    note="checks that the calls are issued in a safe order, not that kernel/disk honour them", ref="§4 C11"),
  "C14": dict(level="exploration", engine="E-HIST", technique="runtime monitoring: differential replay of identical deterministic application histories with and without litestream; logical dump, bookkeeping tables, integrity and journal mode compared",
-   text="The same seeded application history runs twice (control without litestream; treatment with syncs, checkpoints in all modes, snapshots, compactions, Close/Open inserted at PRNG-chosen points, also inside open application transactions); schema and rows of every non-litestream object, user_version, integrity_check, journal_mode must be equal and _litestream_lock must be empty at every quiescent point.",
+   text="The same seeded application history runs twice (control without litestream; treatment with syncs, checkpoints in all modes, snapshots, compactions, Close/Open inserted at PRNG-chosen points, also inside open application transactions); schema and rows of every non-litestream object, user_version, integrity_check, journal_mode must be equal and _litestream_lock must be empty at every quiescent point. Added: local disk-full episodes around litestream operations; an application statement that stays SQLITE_BUSY with no litestream call in flight is a violation; a cross-process scenario (application here, litestream in a process of its own) in which the application closes its last connection around every litestream operation, a third process asks the kernel (F_GETLK) who holds SQLite's shared lock on the database file, and the ledger is checked after reconnecting.",
    note="application statements that hit SQLITE_BUSY in the treatment are retried so both runs commit the same transactions", ref="§4 C14"),
  "C17": dict(level="exploration", engine="E-HIST", technique="runtime monitoring: >1 GiB databases replicated and restored; every LTX file stream-scanned for the lock page, restored file stream-compared with the source",
    text="Databases just below 1 GiB are grown across / up to / beyond SQLite's lock page within one sync, then snapshotted, compacted and restored; no LTX file may contain the lock page, every other page must restore exactly, the lock page must be zero.",
    note="quick tier uses page size 65536 only (three placements); thorough covers all eight page sizes", ref="§4 C17"),
  "C18": dict(level="exploration", engine="E-HIST", technique="runtime monitoring: every page and the file size served by a VFSFile compared with the level-0 image of its position at open and after deterministic poll points; SQL-level dump through a real SQLite connection on the registered VFS",
-   text="Primary histories (growth, auto_vacuum/incremental shrink, VACUUM, compaction, level-0 retention of files being read) with a VFS file opened on the same replica; after open and after each hook-driven poll (also under a SHARED lock, and in time-travel mode) FileSize and every page read through ReadAt must equal the level-0 image of VFSFile.Pos() (masking only header bytes the VFS rewrites); time travel must equal the timestamp restore; a quarter of the histories also compare a logical dump through mattn SQLite on the registered VFS.",
-   note="needs the vfs build variant (cgo); hydration mode is not covered (asynchronous, no hook)", ref="§4 C18"),
+   text="Primary histories (growth, auto_vacuum/incremental shrink, VACUUM, compaction, level-0 retention of files being read) with a VFS file opened on the same replica; after open and after each hook-driven poll (also under a SHARED lock, and in time-travel mode) FileSize and every page read through ReadAt must equal the level-0 image of VFSFile.Pos() (masking only header bytes the VFS rewrites); time travel must equal the timestamp restore; a quarter of the histories also compare a logical dump through mattn SQLite on the registered VFS. A third of the histories run with hydration enabled (temporary and persistent hydration files; hydration held in flight or completed, observed through the VFS's log handler); SetTargetTime/ResetTime are also issued under a SHARED lock with staged poll updates.",
+   note="needs the vfs build variant (cgo); the VFS write path is not covered", ref="§4 C18"),
 }
 
 # properties not (yet) claimed: id -> reason
